@@ -16,17 +16,25 @@ META = {
                  "whose decision expressions, face tables, guards and step order are regenerated from the source on every "
                  "run (fail-closed ast translator) + kernel-checked correspondence batches on generated raw inputs built "
                  "through lists, tuples, numpy rows, append and from_arrays + independent brute-force oracle",
-    "level_text": "Machine-checked, unbounded Coq theorems about the model of mesh_data.py/mesh.py (edge validity predicate, "
-                  "tetra/hexa face tables, corner-regeneration guards, keyify, side index formula, dimensionality chain, "
-                  "class selection, from_arrays tests and the order of prepare()'s steps are generated from /repo each run): "
-                  "edge list = valid keyified declared edges ++ each new valid face side once, all (a,b) with 0<=a<b<n; "
-                  "attribute values of surviving edges at the compacted index; faces completed from cells (4 triangles / "
-                  "6 quads, shared face once, face i opposite vertex i); corner records; class = highest non-empty "
-                  "dimension or override; hard_edges exactly on declared edges; re-building from the built mesh changes "
-                  "nothing (up to attribute representation); from_arrays pads to 3-D. Container independence (lists / "
-                  "tuples / numpy rows / append / from_arrays) has no counterpart in the model and is carried by the "
-                  "correspondence: every route must agree with the one model answer and with each other, including a "
-                  "script of later connectivity queries.",
+    "level_text": "Machine-checked, unbounded Coq theorems (closed under the global context) about an executable model of "
+                  "mesh_data.py / mesh.py / base.py whose edge validity predicate, keyify, face-side index formula, tetra and "
+                  "hexa face tables (both copies), corner-regeneration guards, corner record argument order, hard-edge "
+                  "guard/flag, attribute keep-test and default carry-over, dimensionality chain, class selection, "
+                  "from_arrays tests and the order of prepare()'s steps are regenerated from /repo on every run. Proved in "
+                  "full for all raw inputs, both completion switches and any dim override: C02_edges (+face_sides_spec, "
+                  "sides_present, added_side_once, surviving_edges_order): edge list = valid keyified declared edges ++ each "
+                  "new valid face side once, all (a,b) with 0<=a<b<n; C02_edge_attributes: a surviving edge reads its old "
+                  "value at the compacted index, default kept (sparse and dense); C02_hard_edges: flagged exactly on the "
+                  "declared edges; C02_faces_from_cells / tet_faces_opposite / hex_faces_shape / tables / cell_faces / "
+                  "prepare_total: 4 triangles or 6 quads per cell, shared face once, face i opposite vertex i, cell_faces "
+                  "ids and owners, no failure with completion on; C02_corners: one (element, owner) record per incidence in "
+                  "element order; C02_class: highest non-empty dimension or override; C02_from_arrays_3d: zero padding to "
+                  "3-D, rejected indices; C02_rebuild_changes_nothing (+prepared_stable, prepare_gives_prepared): "
+                  "RawMeshData(mesh) -> instantiate returns the same class and containers, attributes equal as total maps "
+                  "over the edges, for any number of rebuilds. Container independence (lists / tuples / numpy rows / append "
+                  "/ from_arrays) has no counterpart in the model and is only tested: kernel-checked correspondence batches "
+                  "compare every route with the one model answer, and the oracle compares the routes with each other "
+                  "including a script of later connectivity queries.",
     "level_note": "Trusted: Coq kernel + vm_compute; the mesh_data translator; the correspondence harness (generators, "
                   "driver canonicalisation: index rows reported as integer lists, attribute values as integers, names as "
                   "codes); CPython list/dict/set semantics, numpy integer scalars hashing/comparing like ints; cells other "
@@ -171,7 +179,7 @@ def shrink(case, key):
 # ---------------------------------------------------------------------- the check
 def run(ctx):
     quick = ctx.tier == "quick"
-    n_cases = 800 if quick else 40000
+    n_cases = 600 if quick else 20000
     ctx.rule = ("raw inputs from small mesh seeds (triangle/quad grids, polygons of arity 1-7, fans, 1/2/5/6-tet and 1/2-hexa "
                 "and mixed meshes, tet chains, polylines, point sets, random face and cell soups) plus a malformed stream "
                 "(self-loops, out-of-range, negative and duplicate declared edges, sparse/dense edge attributes with or "
@@ -242,8 +250,16 @@ def run(ctx):
     bad = []
     ctx.log("oracle: %d failing case(s); correspondence on %d terms" % (len(failures), len(terms)))
     if b["model_ok"]:
-        bad = ctx.run_cases("prepare", HEADER, terms, "check_case", case_type="(cfg * input * list obs)",
-                            shard=200 if quick else 400, timeout=900)
+        # at most 8 shards of 200 terms are evaluated at a time (a coqc on a shard needs a few hundred MB)
+        chunk = 1600
+        for k in range(0, len(terms), chunk):
+            r = ctx.run_cases("prepare%s" % ("" if len(terms) <= chunk else "_%02d" % (k // chunk)), HEADER,
+                              terms[k:k + chunk], "check_case", case_type="(cfg * input * list obs)", shard=200, timeout=900)
+            if r is None:
+                break
+            bad += [k + i for i in r]
+            if len(bad) > 50:
+                break
     else:
         ctx.obligation("correspondence batches", "correspondence", False, "model does not compile")
 
